@@ -71,6 +71,7 @@ type c18Case struct {
 	AckErrors bool
 	Timeout   time.Duration // ListenForReplyTimeout (0: none)
 	Callers   []c18Caller
+	PresetOp  bool // an OnSend hook of the command bus has already put something under the operation-id metadata key (metadata propagated from the command that is being handled, say): the request still gets its own id
 	Foreign   int // concurrent requests of the other command type (result type []string) on the same reply topic
 }
 
@@ -113,6 +114,12 @@ func runC18(c *Ctx) error {
 		// ... and so is one whose text comes from several layers of wrapping
 		cases = append(cases, c18Case{Class: "wrapped-error-from-handler", AckErrors: ack,
 			Callers: []c18Caller{{"c1w", "drain", 1, false}, {"c2w", "sendwithreply", 1, false}, {"c3", "drain", 1, false}}})
+		// the command message arrives at SendWithReplies' modify step with an operation id already in its metadata
+		cases = append(cases, c18Case{Class: "preset-operation-id", AckErrors: ack, PresetOp: true,
+			Callers: []c18Caller{{"c1", "drain", 1, false}, {"c2", "sendwithreply", 0, false}, {"c3", "readone", 0, false}, {"c4", "drain", 0, false}}})
+		// the caller's context is done before the request is made: one time-out reply, the channel closes, the listener's hook runs
+		cases = append(cases, c18Case{Class: "caller-context-already-done", AckErrors: ack,
+			Callers: []c18Caller{{"c1", "precancelled", 0, false}, {"c2", "drain", 1, false}, {"c3", "precancelled", 1, false}}})
 		// the publish of the reply fails once: the command must be Nacked and redelivered whatever AckCommandErrors says
 		for _, fail := range []int{0, 1} {
 			cases = append(cases, c18Case{Class: "reply-publish-fails", AckErrors: ack, Callers: []c18Caller{{"c1", "drain", fail, true}, {"c2", "readone", 0, false}}})
@@ -375,6 +382,12 @@ func c18Body(r *tr.Run, cs c18Case) {
 	bus, err := cqrs.NewCommandBusWithConfig(gc, cqrs.CommandBusConfig{
 		GeneratePublishTopic: func(cqrs.CommandBusGeneratePublishTopicParams) (string, error) { return "commands", nil },
 		Marshaler:            marshaler,
+		OnSend: func(p cqrs.CommandBusOnSendParams) error {
+			if cs.PresetOp {
+				p.Message.Metadata.Set(requestreply.OperationIDMetadataKey, "operation-of-the-parent-request")
+			}
+			return nil
+		},
 	})
 	if err != nil {
 		r.Emit("error", "what", err.Error())
@@ -545,6 +558,10 @@ func c18Caller1(r *tr.Run, cs c18Case, cl c18Caller, bus *cqrs.CommandBus, backe
 		// the listener's own time-out will end it -- on a loaded machine even before SendWithReplies has returned
 		r.Emit("ended", "c", cl.Name, "nochan", false)
 	}
+	if cl.Behav == "precancelled" {
+		r.Emit("ended", "c", cl.Name, "nochan", false)
+		cancelCtx()
+	}
 	ch, cancel, err := requestreply.SendWithReplies[c18Res](ctx, bus, backend, cmd)
 	if err != nil {
 		r.Emit("error", "what", err.Error())
@@ -589,7 +606,12 @@ func c18Caller1(r *tr.Run, cs c18Case, cl c18Caller, bus *cqrs.CommandBus, backe
 			want = 1
 		}
 		got := 0
+		// (when a publish of a reply is scripted to fail fewer replies than deliveries come: the wait then ends by time)
+		certain := !cl.PubFail && cs.Timeout == 0 && !cs.Swallow
 		timeout := time.After(1500 * time.Millisecond)
+		if certain {
+			timeout = time.After(HangBound)
+		}
 	loop:
 		for got < want {
 			select {
@@ -601,6 +623,10 @@ func c18Caller1(r *tr.Run, cs c18Case, cl c18Caller, bus *cqrs.CommandBus, backe
 				logReply(rep)
 				got++
 			case <-timeout:
+				if certain {
+					// the listener was subscribed before the command went out and the caller has been reading all the time
+					r.Emit("hung", "what", "a reply produced for this caller's command never reached it", "c", cl.Name)
+				}
 				break loop
 			}
 		}
@@ -636,6 +662,9 @@ func c18Caller1(r *tr.Run, cs c18Case, cl c18Caller, bus *cqrs.CommandBus, backe
 			end()
 		}
 		drain()
+	case "precancelled":
+		drain()
+		abandon() // (the hook of the listener runs whether or not it ever listened)
 	case "cancelonpub":
 		// the request is ended at the very moment its reply has been published: the reply reaches the listener together with the end
 		var once sync.Once
